@@ -265,13 +265,14 @@ class MultiWcsProcessor(object):
         # Start up the workers
 
         done_event = mp.Event()
+        error_event = mp.Event()
         queue = mp.Queue(maxsize=2 * parallel)
         workers = []
 
         for _ in range(parallel):
             w = mp.Process(
                 target=_mp_tile_worker,
-                args=(queue, done_event, pio, reproject_function, kwargs),
+                args=(queue, done_event, error_event, pio, reproject_function, kwargs),
             )
             w.daemon = True
             w.start()
@@ -293,8 +294,12 @@ class MultiWcsProcessor(object):
         for w in workers:
             w.join()
 
+        from .par_util import raise_if_worker_failed
 
-def _mp_tile_worker(queue, done_event, pio, reproject_function, kwargs):
+        raise_if_worker_failed(error_event)
+
+
+def _mp_tile_worker(queue, done_event, error_event, pio, reproject_function, kwargs):
     """
     Generate and enqueue the tiles that need to be processed.
     """
@@ -320,49 +325,57 @@ def _mp_tile_worker(queue, done_event, pio, reproject_function, kwargs):
                 break
             continue
 
-        input_array = image.asarray()
+        # Keep draining the queue if processing fails, so that the producer is
+        # never left blocked; the parent raises after joining the workers.
+        try:
+            input_array = image.asarray()
 
-        for chunk in desc.chunks:
-            chunk_shape = (chunk.j1 - chunk.j0, desc.imax - desc.imin)
-            chunk_wcs = combined_wcs[chunk.j0 : chunk.j1, desc.imin : desc.imax]
+            for chunk in desc.chunks:
+                chunk_shape = (chunk.j1 - chunk.j0, desc.imax - desc.imin)
+                chunk_wcs = combined_wcs[chunk.j0 : chunk.j1, desc.imin : desc.imax]
 
-            array = reproject_function(
-                (input_array, image.wcs),
-                output_projection=chunk_wcs,
-                shape_out=chunk_shape,
-                return_footprint=False,
-                **kwargs,
-            )
+                array = reproject_function(
+                    (input_array, image.wcs),
+                    output_projection=chunk_wcs,
+                    shape_out=chunk_shape,
+                    return_footprint=False,
+                    **kwargs,
+                )
 
-            image_out = Image.from_array(array.astype(np.float32))
+                image_out = Image.from_array(array.astype(np.float32))
 
-            for (
-                pos,
-                width,
-                height,
-                image_x,
-                image_y,
-                tile_x,
-                tile_y,
-            ) in chunk.sub_tiling.generate_populated_positions():
-                if invert_into_tiles:
-                    flip_tile_y1 = 255 - tile_y
-                    flip_tile_y0 = flip_tile_y1 - height
+                for (
+                    pos,
+                    width,
+                    height,
+                    image_x,
+                    image_y,
+                    tile_x,
+                    tile_y,
+                ) in chunk.sub_tiling.generate_populated_positions():
+                    if invert_into_tiles:
+                        flip_tile_y1 = 255 - tile_y
+                        flip_tile_y0 = flip_tile_y1 - height
 
-                    if flip_tile_y0 == -1:
-                        flip_tile_y0 = None  # with a slice, -1 does the wrong thing
+                        if flip_tile_y0 == -1:
+                            flip_tile_y0 = None  # with a slice, -1 does the wrong thing
 
-                    by_idx = slice(flip_tile_y1, flip_tile_y0, -1)
-                else:
-                    by_idx = slice(tile_y, tile_y + height)
+                        by_idx = slice(flip_tile_y1, flip_tile_y0, -1)
+                    else:
+                        by_idx = slice(tile_y, tile_y + height)
 
-                iy_idx = slice(image_y, image_y + height)
-                ix_idx = slice(image_x, image_x + width)
-                bx_idx = slice(tile_x, tile_x + width)
+                    iy_idx = slice(image_y, image_y + height)
+                    ix_idx = slice(image_x, image_x + width)
+                    bx_idx = slice(tile_x, tile_x + width)
 
-                with pio.update_image(
-                    pos, masked_mode=image_out.mode, default="masked"
-                ) as basis:
-                    image_out.update_into_maskable_buffer(
-                        basis, iy_idx, ix_idx, by_idx, bx_idx
-                    )
+                    with pio.update_image(
+                        pos, masked_mode=image_out.mode, default="masked"
+                    ) as basis:
+                        image_out.update_into_maskable_buffer(
+                            basis, iy_idx, ix_idx, by_idx, bx_idx
+                        )
+        except Exception:
+            import traceback
+
+            traceback.print_exc()
+            error_event.set()
